@@ -165,14 +165,15 @@ def frontier_tasks(tier, progress=False):
 
 def TASKS(tier):
     from props.start import start_tasks
-    from props.ops import fold_tasks, keyed_fold_tasks, window_op_tasks
+    from props.ops import fold_tasks, keyed_fold_tasks, window_op_tasks, flat_map_tasks
     return (frontier_tasks(tier) +
             [t for t in start_tasks(tier, 'start', progress=False) if t.params.get('timed')] + fold_tasks(tier, 'fold') +
-            keyed_fold_tasks(tier, 'keyed_fold') + window_op_tasks(tier, 'window_operator'))
+            keyed_fold_tasks(tier, 'keyed_fold') + window_op_tasks(tier, 'window_operator') +
+            flat_map_tasks(tier, 'flat_map'))
 
 
 from props.start import start_harness, classify_start      # noqa: E402
-from props.ops import fold_harness, keyed_fold_harness, window_op_harness    # noqa: E402
+from props.ops import fold_harness, keyed_fold_harness, window_op_harness, flat_map_harness    # noqa: E402
 
 
 def classify(t, v):
